@@ -1013,3 +1013,19 @@ Proof.
   intros H xs. induction xs as [|x xs IH]; intro st; simpl; [reflexivity|].
   now rewrite H, IH.
 Qed.
+
+(** * LabelDirichletInjector: which class gets which component of the draw *)
+Lemma lookup_combine (N : Num) : forall (keys dir : list (F N)) (i : nat) k v,
+  nth_error keys i = Some k -> nth_error dir i = Some v ->
+  feqb k k = true ->
+  (forall j k', (j < i)%nat -> nth_error keys j = Some k' -> feqb k k' = false) ->
+  lookup N k (combine keys dir) = Some v.
+Proof.
+  induction keys as [|k0 keys IH]; intros dir i k v Hk Hv Hr Hd.
+  - destruct i; discriminate.
+  - destruct dir as [|v0 dir]; [destruct i; discriminate|].
+    destruct i as [|i]; simpl in *.
+    + injection Hk as ->. injection Hv as ->. now rewrite Hr.
+    + rewrite (Hd 0%nat k0) by (auto; lia). apply (IH dir i); auto.
+      intros j k' Hj Hk'. apply (Hd (S j) k'); [lia|exact Hk'].
+Qed.
